@@ -126,9 +126,11 @@ class ForgivingFactorBits(ForgivingFactor):
         is_softmax = layer.activation == "softmax"
         is_sigmoid = layer.activation == "sigmoid"
       else:
-        is_linear = layer.activation.__name__ == "linear"
-        is_softmax = layer.activation.__name__ == "softmax"
-        is_sigmoid = layer.activation.__name__ == "sigmoid"
+        # quantizer objects have no __name__
+        a_name = getattr(layer.activation, "__name__", None)
+        is_linear = a_name == "linear"
+        is_softmax = a_name == "softmax"
+        is_sigmoid = a_name == "sigmoid"
 
       if is_linear:
         bits = 0
